@@ -162,6 +162,8 @@ def build_case(seed, avoid=()):
             nm = nm + b'x'
         names.append(nm)
     load = ch.weighted([(150, 'default'), (40, 'rel_cli'), (30, 'abs_cli'), (30, 'abs_env')])
+    if load in ('abs_cli', 'abs_env') and len(seed) >= 1 and bytes(seed)[-1] % 4 == 2:
+        load = 'rel_dotdot'           # packages in ../libs, found through a relative pattern with a `..`
     # edges: main requires a non-empty subset; packages require later (or, for cycles, earlier) packages
     ugl = {nm: ch.chance(50) for nm in names}
     edges = {None: []}
@@ -180,6 +182,20 @@ def build_case(seed, avoid=()):
                 edges[nm].append(other)       # may create diamonds and cycles
     if names and ch.chance(60):
         edges[None].append(names[ch.below(len(names))])   # required twice from main
+    # one file reached under two names: with the default load path `?;?.lua` both "util" and "util.lua" find
+    # util.lua; the README counts them as two packages, each with its own use_game_loop choice
+    alias = {}
+    seed = bytes(seed)
+    if load == 'default' and names and len(seed) >= 3 and seed[-1] % 4 == 1:
+        real = names[seed[-2] % len(names)]
+        al = real + b'.lua'
+        alias[al] = real
+        ugl[al] = not ugl[real] if seed[-3] % 4 else ugl[real]
+        if seed[-3] % 2:
+            edges[None].insert(0, al)
+        else:
+            edges[None].append(al)
+        edges[al] = edges[real]
     files = {}
     for who in [None] + names:
         f = File()
@@ -191,7 +207,9 @@ def build_case(seed, avoid=()):
         f.stmts = stmts
         f.targets = edges[who]
         files[who] = f
-    return {'names': names, 'edges': edges, 'ugl': ugl, 'load': load, 'files': files}
+    for al, real in alias.items():
+        files[al] = files[real]
+    return {'names': names, 'edges': edges, 'ugl': ugl, 'load': load, 'files': files, 'alias': alias}
 
 
 def _dir(name):
@@ -202,12 +220,15 @@ def _same_dir_ok(src, target, load):
     """With the default / relative load path a package can only require what lies below its own directory."""
     if load in ('abs_cli', 'abs_env'):
         return True
+    if load == 'rel_dotdot':
+        # `../libs/?.lua` is relative to the requiring file: it works from proj/ and from libs/ itself
+        return src is None or b'/' not in src
     d = _dir(src) if src is not None else b''
     return target.startswith(d)
 
 
 def _req_string(src, target, load):
-    if load in ('abs_cli', 'abs_env'):
+    if load in ('abs_cli', 'abs_env', 'rel_dotdot'):
         return target
     d = _dir(src) if src is not None else b''
     return target[len(d):]
@@ -225,7 +246,7 @@ def materialise(case, td):
     libs = os.path.join(td, 'libs')
     os.makedirs(proj)
     os.makedirs(libs)
-    base = libs if load in ('abs_cli', 'abs_env') else proj
+    base = libs if load in ('abs_cli', 'abs_env', 'rel_dotdot') else proj
     sub = 'lib2' if load == 'rel_cli' else ''
     for nm in case['names']:
         rel = nm.decode('latin-1') + '.lua'
@@ -244,6 +265,8 @@ def materialise(case, td):
         extra = ['--lua-path', libs + '/?.lua;' + libs + '/?/init.lua']
     elif load == 'abs_env':
         env = {'PICO8_LUA_PATH': libs + '/?.lua'}
+    elif load == 'rel_dotdot':
+        extra = ['--lua-path', '?.lua;../libs/?.lua']
     return main, extra, env
 
 
@@ -411,6 +434,10 @@ def part_graphs(ctx):
             labs.append('game_loop_not_last')
         if any(case['ugl'][reach[k]] for k in order):
             labs.append('use_game_loop')
+        for al, real in case['alias'].items():
+            labs.append('one_file_two_names')
+            if case['ugl'][al] != case['ugl'][real]:
+                labs.append('one_file_two_names_different_option')
         for f in case['files'].values():
             for s in f.sites:
                 labs.append('site_' + s)
@@ -498,7 +525,8 @@ def vacuity(total, tier):
     msgs = []
     for lab in ('shared_package', 'nested_dir', 'package_requires_package', 'game_loop_stripped', 'game_loop_not_last',
                 'use_game_loop', 'site_stmt', 'site_local', 'site_in_function', 'load_default', 'load_abs_cli',
-                'load_abs_env', 'no_final_newline', 'error_missing_file', 'error_bad_option_value'):
+                'load_abs_env', 'load_rel_dotdot', 'no_final_newline', 'error_missing_file', 'error_bad_option_value',
+                'one_file_two_names_different_option'):
         if total.classes.get(lab, 0) < 2:
             msgs.append('class %s seen %d times' % (lab, total.classes.get(lab, 0)))
     return msgs
